@@ -413,7 +413,15 @@ def direct_oracles(case, res, hist, code_nmix, plan=None):
         if bad is not None:
             hist["oracle_closed_inventory"] += 1
             if bad:
-                out.append(("oracle-inventory", bad[:3]))
+                # known departure: diffuse_implicit's negative-mole guard (min_mol = max(min_dif_M*kgw, 1e-13)) lets the
+                # inventory drift slightly and creates ~1e-13 mol per cell of absent elements; only that small drift
+                # of implicit runs is routed to the finding key, anything larger is a violation
+                # (the guard acts per cell, element and sub-step: absolute size ~1e-13 mol each)
+                small = all(abs(x[3] - x[2]) <= max(1e-6 * abs(x[2]), 2e-13 * len(cells) * x[1] * max(code_nmix, 1)) for x in bad)
+                if case.get("implicit") and small:
+                    out.append(("finding:implicit-mcd-closed-inventory-drift", bad[:3]))
+                else:
+                    out.append(("oracle-inventory", bad[:3]))
     # (3) pure advection: exact shift
     if plain and su["flow"] != 0 and code_nmix == 0:
         bad = oracle_shift(by, n, su["flow"], shifts, allq)
@@ -660,25 +668,39 @@ def shrink_case(ctx, exe, c, kinds):
     return cur
 
 
-def report(ctx, exe, problems, limit=3):
-    done = 0
+def has_oracle_failure(p):
+    return any(k.startswith("oracle") or k == "crash" for k, _ in p[1])
+
+
+def report(ctx, exe, problems, limit=3, explored=0):
+    """violation protocol (DESIGN §3): a case on which the property's direct oracle fails on the implementation's own
+    output is a failing input; a broken correspondence (model ≠ code) without any oracle failure in the whole
+    exploration is reported as `no-failing-input-found`; known findings go through ctx.finding."""
     for c, probs, res in problems:
-        fk = [k for k, _ in probs if k.startswith("finding:")]
-        rest = [(k, d) for k, d in probs if not k.startswith("finding:")]
-        for k in sorted(set(fk)):
+        for k in sorted({k for k, _ in probs if k.startswith("finding:")}):
             key = k.split(":", 1)[1]
             d = [d for kk, d in probs if kk == k][0]
-            ctx.finding(key, "column inventory changes although nothing enters or leaves: %s" % (str(d)[:300]),
-                        {"case": c, "input": gt.render(c)})
-        if rest and done < limit:
-            done += 1
-            kinds = sorted({k for k, _ in rest})
+            ctx.finding(key, "closed column inventory drifts: %s" % (str(d)[:300]), {"case": c, "input": gt.render(c)})
+    orc = [p for p in problems if has_oracle_failure(p)]
+    tie = [p for p in problems if not has_oracle_failure(p) and any(k.startswith("tie") for k, _ in p[1])]
+    for c, probs, res in orc[:limit]:
+        rest = [(k, d) for k, d in probs if not k.startswith("finding:")]
+        kinds = sorted({k for k, _ in rest})
+        c2 = c
+        if exe is not None:
             try:
-                c2 = shrink_case(ctx, exe, c, set(kinds))
+                c2 = shrink_case(ctx, exe, c, {k for k in kinds if k.startswith("oracle")})
             except Exception:
                 c2 = c
-            ctx.violation("C11 %s: %s" % (",".join(kinds), str(rest[0][1])[:300]),
-                          {"case": c2, "input": gt.render(c2), "problems": [(k, str(d)[:400]) for k, d in rest[:6]]})
+        ctx.violation("C11 %s: %s" % (",".join(kinds), str(rest[0][1])[:300]),
+                      {"case": c2, "input": gt.render(c2), "problems": [(k, str(d)[:400]) for k, d in rest[:6]]})
+    if tie and not orc:
+        c, probs, res = tie[0]
+        rest = [(k, d) for k, d in probs if k.startswith("tie")]
+        ctx.violation("C11 correspondence broken (model of init_mix/transport ≠ code) on %d case(s); the property's direct "
+                      "oracles held on all %d explored cases. First: %s" % (len(tie), explored, str(rest[0][1])[:300]),
+                      {"case": c, "input": gt.render(c), "problems": [(k, str(d)[:400]) for k, d in rest[:6]],
+                       "correspondence": "tools/props/c11.py judge_modelled vs pmodel transport"}, found_input=False)
 
 
 RULE = ("columns from tools/gens/transport.py: 1-40 cells, one/equal/unequal/short length lists, zero/equal/unequal/"
@@ -698,9 +720,9 @@ def run(ctx):
     ctx.build_lib()
     exe = ctx.build_harness("ph_transport")
     hist = Hist()
-    nplain = ctx.n(400, 6000)
-    nvar = ctx.n(120, 1500)
-    budget = ctx.n(4000, 15000)
+    nplain = ctx.n(2000, 25000)
+    nvar = ctx.n(500, 6000)
+    budget = ctx.n(4000, 20000)
     if not ok:
         nplain, nvar, budget = 3000, 600, 8000
     problems = []
@@ -711,7 +733,7 @@ def run(ctx):
     cplans = model_plans(ctx, corpus)
     problems += check_cases(ctx, exe, [(c, cplans.get(i)) for i, c in enumerate(corpus)], hist)
     hist["corpus_cases"] = len(corpus)
-    while done < nplain and not [p for p in problems if any(not k.startswith("finding:") for k, _ in p[1])]:
+    while done < nplain and not any(has_oracle_failure(p) for p in problems):
         cases = gen_cases(ctx, min(chunk, nplain - done), budget)
         if not cases:
             break
@@ -722,7 +744,7 @@ def run(ctx):
         ctx.log("plain cases checked: %d, problems: %d" % (done, len(problems)))
     # variants derived from fresh plain columns (cheap ones)
     vdone = 0
-    while vdone < nvar and not [p for p in problems if any(not k.startswith("finding:") for k, _ in p[1])]:
+    while vdone < nvar and not any(has_oracle_failure(p) for p in problems):
         base = gen_cases(ctx, min(chunk, nvar - vdone), budget // 4)
         vs = [gt.variant(ctx.rng, c) for c, _ in base if c["kind"] == "transport"]
         if not vs:
@@ -732,7 +754,7 @@ def run(ctx):
         if vdone <= chunk:
             ctx.sample({"variant_case_input": gt.render(vs[0])[:1200]})
         ctx.log("variant cases checked: %d, problems: %d" % (vdone, len(problems)))
-    report(ctx, exe, problems)
+    report(ctx, exe, problems, explored=done + vdone + len(corpus))
     ctx.cov["evaluations"] = hist["cases"] + hist["variant_judged"]
     ctx.cov["distinct_nontrivial"] = hist["cases"] - hist["nmix_0_noflow"] + hist["variant_judged"]
     ctx.cov["traces_validated_against_impl"] = hist["cases"]
@@ -761,7 +783,7 @@ def replay(ctx, data):
         problems = check_cases(ctx, exe, [(c, model_plans(ctx, [c]).get(0))], hist)
     for c, probs, res in problems:
         print("REPLAY problems:", [(k, str(d)[:300]) for k, d in probs[:6]])
-    report(ctx, None, [(c, probs, None) for c, probs, _ in problems])
+    report(ctx, None, [(c, probs, None) for c, probs, _ in problems], explored=1)
     if not problems:
         print("REPLAY: no problem reproduced")
 
